@@ -32,7 +32,8 @@ def doc(s):
         toks.append("mktok (mkspan %s %s) (%s)"%(ws[0],ws[1],kind(ws[2:])))
     return "mkdoc %s\n    [%s]"%(text(f[0]),";\n     ".join(toks))
 name,line=sys.argv[1],sys.stdin.readline().rstrip("\n")
-parts=[x.strip() for x in line[1:].split('|')]
+import re
+parts=[x.strip() for x in re.sub(r'^[A-Z][0-3]?', '', line).split('|')]
 print("Definition %s_l1 : ilint := %s."%(name,lint(parts[0])))
 print("Definition %s_d1 : doc := %s."%(name,doc(parts[1])))
 print("Definition %s_l2 : ilint := %s."%(name,lint(parts[2])))
